@@ -434,7 +434,7 @@ func (e *Engine) runState(st *State) {
 		}
 		st.steps++
 		st.sub = 0
-		if st.steps > e.cfg.MaxSteps {
+		if st.steps > e.cfg.MaxSteps && st.steps > st.maxSteps {
 			e.endPath(st, PathEnd{Kind: "budget", Msg: fmt.Sprintf("instruction budget %d exceeded at %s", e.cfg.MaxSteps, posOf(st, e))})
 			return
 		}
